@@ -124,6 +124,19 @@ impl<'a> Shrinker<'a> {
                 }
             }
         }
+        for oi in 0..cur.ops.len() {
+            if let OpKind::Fill { front, .. } = &cur.ops[oi].kind {
+                if *front > 0 {
+                    let mut c = cur.clone();
+                    if let OpKind::Fill { front, .. } = &mut c.ops[oi].kind {
+                        *front = 0;
+                    }
+                    if self.fails(&c) {
+                        cur = c;
+                    }
+                }
+            }
+        }
         if cur.infallible {
             let mut c = cur.clone();
             c.infallible = false;
